@@ -4,7 +4,10 @@ import (
 	"encoding/json"
 	"flag"
 	"fmt"
+	"io"
 	"os"
+	"os/exec"
+	"path/filepath"
 	"sort"
 	"strings"
 	"time"
@@ -949,9 +952,18 @@ func genScenarios(o *Opts, r *Rand) []*seqScenario {
 
 func runSeq(args []string) int {
 	var only string
+	from, to, budgetS := -1, -1, 0
 	o := ParseOpts("seq", args, func(fs *flag.FlagSet) {
 		fs.StringVar(&only, "family", "", "restrict to one scenario family")
+		fs.IntVar(&from, "from", -1, "(child of a chunked run) first scenario index")
+		fs.IntVar(&to, "to", -1, "(child of a chunked run) one past the last scenario index")
+		fs.IntVar(&budgetS, "budget", 0, "(child of a chunked run) wall-clock budget in seconds")
 	})
+	if o.Replay == "" && from < 0 {
+		if rc, done := runSeqChunked(args, o, only); done {
+			return rc
+		}
+	}
 	// crawshaw.io/sqlite panics from a finalizer when an unclosed Conn is collected, and LoadLog leaks its
 	// cache connections on every error path after initCache (the real process exits there). The harness keeps
 	// running, so collection is switched off for this (short-lived, memory-bounded) process.
@@ -990,8 +1002,14 @@ func runSeq(args []string) int {
 	if o.Search {
 		budget = 200 * time.Second // the runner gives a search run a few minutes and kills it afterwards
 	}
+	if budgetS > 0 {
+		budget = time.Duration(budgetS) * time.Second
+	}
 	for i, sc := range scs {
 		if only != "" && sc.Family != only {
+			continue
+		}
+		if from >= 0 && (i < from || i >= to) {
 			continue
 		}
 		if el := time.Since(t0); el > budget || (len(fails) >= 8 && el > 240*time.Second) {
@@ -1023,8 +1041,127 @@ func runSeq(args []string) int {
 	if os.Getenv("VH_TIMING") != "" {
 		fmt.Fprintln(os.Stderr, cmdTime, SchedDebug, SchedDebugDur)
 	}
+	if from >= 0 {
+		// the parent of a chunked run merges the distinct keys exactly
+		var ks []string
+		for k := range st.distinct {
+			ks = append(ks, k)
+		}
+		sort.Strings(ks)
+		os.WriteFile(filepath.Join(o.Out, "distinct.txt"), []byte(strings.Join(ks, "\n")), 0o644)
+	}
 	Finish(o.Out, st, fails)
 	return 0
+}
+
+// seqChunk is the number of scenarios one process runs. Garbage collection is off in a process once a LoadLog has
+// failed in it (see runSeq: the connections that LoadLog leaks panic from their finalizer when collected), so a
+// process must end before it has allocated what the memory limit allows: a long run is a sequence of short-lived
+// child processes, each running a slice of the one scenario list; traces, oracle failures and statistics are merged.
+const seqChunk = 60
+
+func runSeqChunked(args []string, o *Opts, only string) (int, bool) {
+	scs := genScenarios(o, NewRand(o.Seed))
+	var idx []int
+	for i, sc := range scs {
+		if only == "" || sc.Family == only {
+			idx = append(idx, i)
+		}
+	}
+	if len(idx) <= seqChunk {
+		return 0, false
+	}
+	budget := 1200 * time.Second
+	if o.Tier == "thorough" {
+		budget = 3600 * time.Second
+	}
+	if o.Search {
+		budget = 200 * time.Second
+	}
+	t0 := time.Now()
+	st := NewStats("seq", "")
+	var fails []OracleFailure
+	trace, err := os.Create(filepath.Join(o.Out, "trace.txt"))
+	if err != nil {
+		fmt.Fprintln(os.Stderr, err)
+		return 2, true
+	}
+	defer trace.Close()
+	rc := 0
+	for k := 0; k*seqChunk < len(idx); k++ {
+		left := budget - time.Since(t0)
+		if left < 5*time.Second || (len(fails) >= 8 && time.Since(t0) > 240*time.Second) || len(fails) > 400 {
+			st.Count("stopped-early:budget")
+			break
+		}
+		a := idx[k*seqChunk]
+		b := idx[min((k+1)*seqChunk, len(idx))-1] + 1
+		dir := filepath.Join(o.Out, fmt.Sprintf("chunk-%d", k))
+		var cargs []string
+		skip := false
+		for _, x := range args {
+			// the child gets its own output directory
+			if skip {
+				skip = false
+				continue
+			}
+			if x == "-out" || x == "--out" {
+				skip = true
+				continue
+			}
+			if strings.HasPrefix(x, "-out=") || strings.HasPrefix(x, "--out=") {
+				continue
+			}
+			cargs = append(cargs, x)
+		}
+		cargs = append([]string{"seq"}, append(cargs, "-out", dir, "-from", fmt.Sprint(a), "-to", fmt.Sprint(b), "-budget", fmt.Sprint(int(left/time.Second)))...)
+		cmd := exec.Command(os.Args[0], cargs...)
+		cmd.Stdout, cmd.Stderr = os.Stdout, os.Stderr
+		cerr := cmd.Run()
+		// whatever the child wrote is kept, also when it died
+		if f, err := os.Open(filepath.Join(dir, "trace.txt")); err == nil {
+			io.Copy(trace, f)
+			f.Close()
+		}
+		if b, err := os.ReadFile(filepath.Join(dir, "oracle.jsonl")); err == nil {
+			for _, l := range strings.Split(string(b), "\n") {
+				var f OracleFailure
+				if strings.TrimSpace(l) != "" && json.Unmarshal([]byte(l), &f) == nil {
+					fails = append(fails, f)
+				}
+			}
+		}
+		if b, err := os.ReadFile(filepath.Join(dir, "stats.json")); err == nil {
+			var cs Stats
+			if json.Unmarshal(b, &cs) == nil {
+				st.Rule = cs.Rule
+				st.Evaluations += cs.Evaluations
+				for k, v := range cs.Distribution {
+					st.Distribution[k] += v
+				}
+				for _, x := range cs.Samples {
+					st.Sample(x)
+				}
+			}
+		}
+		if b, err := os.ReadFile(filepath.Join(dir, "distinct.txt")); err == nil {
+			for _, k := range strings.Split(string(b), "\n") {
+				if k != "" && !st.distinct[k] {
+					st.distinct[k] = true
+					st.DistinctNontrivial++
+				}
+			}
+		}
+		os.RemoveAll(dir)
+		st.Count("processes")
+		if cerr != nil {
+			fmt.Fprintf(os.Stderr, "seq: the process running scenarios %d..%d ended abnormally: %v\n", a, b-1, cerr)
+			rc = 2
+			break
+		}
+	}
+	Finish(o.Out, st, fails)
+	return rc, true
 }
 
 func cmdSummary(sc *seqScenario) string {
